@@ -98,7 +98,8 @@ def xp(e) -> str:
     if k == 'slit':
         return '"' + e[1] + '"'
     if k == 'nan':
-        return "xs:double('NaN')"
+        # ('nan', 'float'): xs:float NaN, used only as a constant key component
+        return "xs:float('NaN')" if len(e) > 1 and e[1] == 'float' else "xs:double('NaN')"
     if k == 'inf':
         return "xs:double('INF')" if e[1] else "xs:double('-INF')"
     if k == 'negz':
@@ -1039,8 +1040,33 @@ class Gen:
         r.shuffle(items)
         x = 0
         kk = r.random()
-        if kk < 0.45:
+
+        def special():
+            return r.choice([('nan',), ('nan',), ('nan', 'float'), ('inf', True), ('inf', False), ('negz',),
+                             ('elit', 0), ('lit', 1), ('dlit', 2)])
+        if kk < 0.3 or (fam == 'mixed' and kk < 0.8):
+            # (a string/number mix is a type error only if the two kinds are really compared: the model
+            # requires position-wise uniform keys, so the mix is generated with the item as the whole key)
             key = ('var', x)
+        elif kk < 0.5:
+            # composite keys whose EARLIER components are special values shared by two or more items
+            # (NaN, also in several components, as xs:double and xs:float; INF; -0) and a LATER
+            # component decides: equal leading components must compare as tied
+            self.tags.add('sortkey:special-prefix')
+            u = r.random()
+            lead = [special() for _ in range(r.choice([1, 1, 2, 3]))]
+            if u < 0.5:
+                parts = lead + [('var', x)]
+            elif u < 0.8:
+                # only some items get the special leading component
+                t = r.choice(['integer', 'double', 'decimal', 'string'])
+                other = ('nan',) if r.random() < 0.4 else special()
+                parts = [('ite', ('inst', t, ('var', x)), lead[0], other)] + lead[1:] + [('var', x)]
+            else:
+                parts = lead + [('var', x), special(), ('var', x)]
+            key = parts[0]
+            for q in parts[1:]:
+                key = ('cat', key, q)
         elif kk < 0.6:
             key = ('cat', ('var', x), self.lit())
         elif kk < 0.7:
@@ -1432,6 +1458,13 @@ CORPUS = [
     ('sortK', seq(L(2), ('nan',), ('dlit', 1), ('inf', False), ('inf', True), L(0), ('negz',), ('nan',)), fn([0], V(0))),
     ('sortK', seq(L(1), L(2), L(3)), fn([0], ('ite', ('eq', V(0), L(2)), ('nan',), V(0)))),
     ('sortK', seq(('elit', 1), ('slit', 'a')), fn([0], V(0))),
+    # round 4: equal NaN components of composite keys are tied, the later component decides
+    ('sortK', seq(L(3), L(1), L(2)), fn([0], ('cat', ('nan',), V(0)))),
+    ('sortK', seq(('slit', 'b'), ('slit', 'a'), ('slit', 'c')), fn([0], ('cat', ('nan',), V(0)))),
+    ('sortK', seq(L(3), L(1), L(2)), fn([0], ('cat', ('cat', ('nan', 'float'), ('nan',)), V(0)))),
+    ('sortK', seq(L(3), ('elit', 1), L(2), ('dlit', 0)),
+     fn([0], ('cat', ('ite', ('inst', 'integer', V(0)), ('nan',), ('inf', False)), V(0)))),
+    ('sortK', seq(L(3), L(1), L(2)), fn([0], ('cat', ('cat', ('inf', True), ('negz',)), V(0)))),
     # round 3: strings, collation argument `()` = default collation of the parser / explicit URI
     ('sortK', seq(('slit', 'b'), ('slit', 'a'), ('slit', 'B'), ('slit', 'A'), ('slit', 'ab'), ('slit', '')), fn([0], V(0))),
     ('sortK', seq(('slit', 'b'), ('slit', 'a'), ('slit', 'B'), ('slit', 'A')), fn([0], V(0)), 'asciici'),
